@@ -202,8 +202,10 @@ class RefServer:
         elif k == "etag_change":
             if cont and rep.block2 is not None and self._hit():
                 num, more, szx = rep.block2
+                # the changed representation's ETag: another value, or none at all ("none"; an ETag is optional)
+                e = self.mis.get("etag", "ee")
                 return self._slice(num * (16 << szx), szx, None, rep=self.other,
-                                   etag=self.mis.get("etag", b"\xee"))
+                                   etag=None if e == "none" else bytes.fromhex(e))
         elif k == "short_block":
             if rep.block2 is not None and rep.block2[1] and self._hit():
                 cut = 1 + self.mis.get("cut", 0) % len(rep.payload)
